@@ -19,7 +19,7 @@ RULE = ("(read-only) for families x configuration classes (tags x rated power x 
         "(setter, argument) tuples")
 ASSUMPTIONS = ["frames are classified by an independent decoder inside the simulated inverter",
                "'modbus-N' ids are documented raw-register access and are not 'unknown' ids"]
-MUST = ["concurrent_writer_reader", "readonly_calls", "readonly_frames_seen", "after_valid_setters", "invalid_export_limit", "invalid_dod", "invalid_eco_power",
+MUST = ["valid_setter_with_concurrent_invalid_calls", "invalid_after_same_mode", "concurrent_writer_reader", "readonly_calls", "readonly_frames_seen", "after_valid_setters", "invalid_export_limit", "invalid_dod", "invalid_eco_power",
         "invalid_eco_soc", "setting_refused_on_read_then_written", "raw_ids_beyond_16_bits", "unknown_setting_ids", "sensor_id_as_setting_id", "monitoring_over_refused_connections", "discover_readonly", "valueerror_seen"]
 EXHAUSTIVE = {"quick": False, "thorough": False}
 
@@ -194,6 +194,23 @@ def invalid_case(fam, port, variant, seed, part, wide):
                                     lambda: inv.set_operation_mode(mode, x, 50), True)
                         await probe(f"set_operation_mode({mode.name}, power=50, soc={x})", "invalid_eco_soc",
                                     lambda: inv.set_operation_mode(mode, 50, x), True)
+        if fam != "DT":
+            # the SAME emulated mode again, right after it was applied successfully, now with an argument out of range (an application
+            # re-applying a mode with a mistyped value): still ValueError and nothing written
+            for mode in (OM.ECO_CHARGE, OM.ECO_DISCHARGE):
+                for x in (-1, -40, 101, 300, -100):
+                    try:
+                        await inv.set_operation_mode(mode, 30, 60)
+                    except Exception:       # noqa  (a model that does not offer the mode: nothing to repeat)
+                        break
+                    await probe(f"set_operation_mode({mode.name}, power={x}, soc=50) right after a successful {mode.name}", "invalid_after_same_mode",
+                                lambda: inv.set_operation_mode(mode, x, 50), True)
+                    try:
+                        await inv.set_operation_mode(mode, 30, 60)
+                    except Exception:       # noqa
+                        break
+                    await probe(f"set_operation_mode({mode.name}, power=50, soc={x}) right after a successful {mode.name}", "invalid_after_same_mode",
+                                lambda: inv.set_operation_mode(mode, 50, x), True)
         for _ in range(40 if wide else 12):
             sid = rnd.choice(("", "x", "nosuch", "eco_mode_9", "grid_export_limit ", "GRID_EXPORT_LIMIT", "work-mode", "mod", "time2",
                               "80", "47000", "dod_80", "bus_2", "sub-47510", "m47000", "_1", "-5", "mod-47000", "dbus-45356", "s_45356",
@@ -297,6 +314,75 @@ def concurrent_case(fam, port, seed, part):
                      {"conc": True, "family": fam, "port": port, "seed": seed})
 
 
+def concurrent_invalid_case(fam, port, variant, seed, part):
+    """a valid setter call is under way (the inverter answers slowly) while calls with out-of-range arguments are made on the same object and
+    refused: the writes the inverter receives must be exactly those of the valid call made alone - nothing of a refused call may reach it,
+    not even through the call that is in flight"""
+    import asyncio
+    g = env.goodwe()
+    OM = g.OperationMode
+    rnd = random.Random(seed)
+    valid = rnd.choice(([("set_operation_mode", OM.ECO_CHARGE, 20, 50)], [("set_operation_mode", OM.ECO_DISCHARGE, 25, 100)],
+                        [("set_ongrid_battery_dod", 30)], [("set_grid_export_limit", 1000)],
+                        [("set_operation_mode", OM.ECO_CHARGE, 20, 50), ("set_grid_export_limit", 1000)]))
+    invalid = [("set_operation_mode", OM.ECO_CHARGE, -40, 50), ("set_operation_mode", OM.ECO_DISCHARGE, -35, 50), ("set_operation_mode", OM.ECO_CHARGE, 50, 130),
+               ("set_operation_mode", OM.ECO_CHARGE, 140, 50), ("set_ongrid_battery_dod", -5), ("set_ongrid_battery_dod", 150), ("set_grid_export_limit", -3)]
+    if fam == "DT":
+        valid, invalid = [("set_grid_export_limit", 1000)], [("set_grid_export_limit", -3), ("set_grid_export_limit", -70000)]
+    offs = [rnd.choice((0.0, 0.05, 0.15, 0.35, 0.55, 0.75, 0.95, 1.3)) for _ in invalid]
+
+    def mksim():
+        if fam == "ET":
+            return models.et_sim(tag=variant)
+        if fam == "DT":
+            return models.dt_sim(tag=variant)
+        return models.es_sim(fw=variant.encode())
+
+    def run_one(with_invalid):
+        sim = mksim()
+        sim.delay = 0.2
+        outcomes = []
+
+        async def flow(loop):
+            inv = models.family_cls(g, fam)("inv0", port, 0, 1, 0)
+            await inv.read_device_info()
+            w0 = len(sim.writes)
+
+            async def good():
+                for c in valid:
+                    await getattr(inv, c[0])(*c[1:])
+
+            async def bad(c, off):
+                await asyncio.sleep(off)
+                try:
+                    await getattr(inv, c[0])(*c[1:])
+                    outcomes.append((c, "returned"))
+                except ValueError:
+                    outcomes.append((c, "ValueError"))
+                except Exception as e:      # noqa
+                    outcomes.append((c, type(e).__name__))
+            await asyncio.gather(good(), *([bad(c, o) for c, o in zip(invalid, offs)] if with_invalid else []))
+            return [(w[1], list(w[2])) for w in sim.writes[w0:]]
+        run = engine.run_custom({("inv0", port): sim}, flow, vtime_cap=3000, tx_cap=3000)
+        return run, outcomes
+
+    solo, _ = run_one(False)
+    if solo.stop or solo.error is not None:
+        return          # (this model does not offer the valid call: nothing to compare)
+    conc, outcomes = run_one(True)
+    part.evaluations += 1
+    part.count("valid_setter_with_concurrent_invalid_calls")
+    part.see(f"concinv|{fam}|{variant}|{port}|{valid[0][0]}|{len(valid)}")
+    case = {"concinv": True, "family": fam, "port": port, "variant": variant, "seed": seed}
+    what = f"{fam} {variant} port {port}: {[c[0] + str(tuple(str(a) for a in c[1:])) for c in valid]} in flight"
+    if conc.stop or conc.error is not None:
+        part.violate(f"C18/{fam}/run-failed", f"{what}, refused calls next to it: {conc.stop or repr(conc.error)[:120]}", case)
+    elif conc.result != solo.result:
+        part.violate(f"C18/{fam}/invalid-argument-written/concurrent",
+                     f"{what} while calls with out-of-range arguments are refused (offsets {offs}): the inverter received the writes {conc.result[:6]}, "
+                     f"the valid call alone produces {solo.result[:6]}", case)
+
+
 def other_firmware_ids(fam, port, code, part):
     """settings that exist only on newer firmware must stay unknown when the capability probe was answered with a Modbus exception
     (any code): write_setting -> ValueError, nothing written."""
@@ -352,6 +438,7 @@ def run_shard(spec):
         for k in range(12 if not spec["wide"] else 300):
             if spec["family"] != "ES":
                 concurrent_case(spec["family"], spec["port"], f"{spec['seed']}:conc:{k}", part)
+            concurrent_invalid_case(spec["family"], spec["port"], spec["variant"], f"{spec['seed']}:concinv:{k}", part)
         return part
     tier = spec["tier"]
     rnd = random.Random(f"{spec['seed']}:C18:plan")
@@ -369,6 +456,9 @@ def run_shard(spec):
 
 def replay(case):
     part = Part()
+    if case.get("concinv"):
+        concurrent_invalid_case(case["family"], case["port"], case["variant"], case["seed"], part)
+        return [{"key": v["key"], "msg": v["msg"]} for v in part.violations]
     if case.get("conc"):
         concurrent_case(case["family"], case["port"], case["seed"], part)
     elif case.get("fwids"):
